@@ -61,8 +61,19 @@ def c12(prop, tier, verdict):
     return 'exploration', cov, ['filters gzip (two levels) and md5; pipes of length <= 4 exhaustively, longer ones by pattern',
                                 'single-byte corruptions (3 masks per position) plus truncation/extension of payloads up to 200 bytes']
 
+def c11(prop, tier, verdict):
+    def sig(line):
+        c = line.get('case', {})
+        return 'codec:%s:%s%s:%s' % (c.get('codec'), c.get('kind'), (':' + c.get('gclass')) if c.get('gclass') else '',
+                                    'escaped' if line.get('escaped') else ('err' if line.get('err') else 'unequal'))
+    cov, _ = eng_data.run(prop, tier, verdict, 'Codec', {'MaxFields': '3'}, sig, 1500, seeds=3 if tier == 'thorough' else 1)
+    return 'exploration', cov, ['value domain = shape grammar of spec/Codec.tla (scalars at their extremes, strings by class, slices 0..3, arrays 1..3, structs of up to 3 representative fields, nesting 2) within the capability matrix of each codec',
+                                'protobuf / thrift values are the message types shipped in the repository',
+                                'garbage: empty, random, every truncation, one bit flipped at every offset, overflowing element counts, wrongly typed tokens; memory safety is observed through two sentinel words around the destination']
+
 CHECKS = {
     'C01': c01,
+    'C11': c11,
     'C05': c05,
     'C12': c12,
     'C02': c02,
